@@ -82,27 +82,28 @@ type End struct {
 	local  net.Addr
 	remote net.Addr
 
-	mu            sync.Mutex
-	inbox         [][]byte      // segments waiting to be Read by this end
-	cond          chan struct{} // closed and replaced on every state change (broadcast)
-	eof           bool          // peer closed (FIN): Read returns EOF after the inbox drains
-	reset         error         // connection aborted: Read/Write fail at once
-	closed        bool          // this end called Close
-	stall         bool          // Writes by this end block until Commit
-	gate          chan struct{} // closed by Commit
-	taps          []WriteRec    // everything this end wrote (observation for the other side)
-	nWrites       int
-	pendingWrites int // writes currently blocked in a stall
-	rdl, wdl      deadline
-	CloseCount    int
-	MaxDatagram   int    // >0: Writes longer than this fail with EMSGSIZE (UDP sockets: 65507)
-	OnAddr        func() // one-shot hook run by the next LocalAddr call
-	werr          error  // writes fail with this error (AbortWrites)
-	wclosed       bool   // CloseWrite was called
-	closeGate     chan struct{}
-	closesParked  int
-	stallEach     bool // every Write blocks until the harness commits it individually
-	pend          []*pendWrite
+	mu                  sync.Mutex
+	inbox               [][]byte      // segments waiting to be Read by this end
+	cond                chan struct{} // closed and replaced on every state change (broadcast)
+	eof                 bool          // peer closed (FIN): Read returns EOF after the inbox drains
+	reset               error         // connection aborted: Read/Write fail at once
+	closed              bool          // this end called Close
+	stall               bool          // Writes by this end block until Commit
+	gate                chan struct{} // closed by Commit
+	taps                []WriteRec    // everything this end wrote (observation for the other side)
+	nWrites             int
+	pendingWrites       int // writes currently blocked in a stall
+	rdl, wdl            deadline
+	CloseCount          int
+	MaxDatagram         int    // >0: Writes longer than this fail with EMSGSIZE (UDP sockets: 65507)
+	OnAddr              func() // one-shot hook run by the next LocalAddr call
+	werr                error  // writes fail with this error (AbortWrites)
+	wclosed             bool   // CloseWrite was called
+	closeGate           chan struct{}
+	closesParked        int
+	wroteAfterPeerClose bool // the one write a socket accepts after its peer has closed was made
+	stallEach           bool // every Write blocks until the harness commits it individually
+	pend                []*pendWrite
 }
 
 // Pipe returns two connected ends. a is usually handed to the implementation.
@@ -274,6 +275,15 @@ func (e *End) Write(b []byte) (n int, err error) {
 			}
 			p.mu.Unlock()
 			if broken {
+				// like a TCP socket whose peer has closed: the first write still succeeds (the kernel takes the bytes, the
+				// peer answers with a reset), only later writes fail; the pending FIN makes the next Read return EOF
+				e.mu.Lock()
+				firstAfter := !e.wroteAfterPeerClose && e.MaxDatagram == 0
+				e.wroteAfterPeerClose = true
+				e.mu.Unlock()
+				if firstAfter {
+					return len(b), nil
+				}
 				return 0, syscall.EPIPE
 			}
 			return len(b), nil
@@ -407,7 +417,7 @@ func (e *End) Inject(segments ...[]byte) {
 }
 
 // PeerFIN closes the other side: this end's Read returns EOF after the inbox
-// drains and its Writes fail with EPIPE.
+// drains; its first Write afterwards still succeeds (as on a TCP socket), later ones fail with EPIPE.
 func (e *End) PeerFIN() { e.peer.Close() }
 
 // CloseWrite half-closes: the peer's Read returns EOF after its inbox drains; this end can still read.
